@@ -471,7 +471,7 @@ fn rule_text(engine: &str) -> String {
     match engine {
         "srcsim" => "case = seeded (grammar AST, 1-3 token strings); each string is parsed (parse and check) through every applicable input kind fed by a simulated source whose per-call behaviour (chunk sizes, EINTR, cut points, size_hint) is drawn from the case PRNG; evaluations = replica runs compared with the &[T] reference. distinct_nontrivial = distinct (case digest, kind, policy) where the reference consumed >= 2 tokens AND the replica's source actually saw a backward reposition / short read / EINTR (reader) or served a rewind from its cache / by cloning (iterators)".into(),
         "recsim" => "case = a generated grammar containing a recursive definition with guarded self-references (the C01/C02/C08 node set inside and around it, no memoization) + 1-3 inputs of <= 40 tokens + a handle lifecycle (value | clone, drop original | re-box a clone, drop the others | use twice); the grammar is built three ways: recursive(), Recursive::declare()+define(), and with the self-reference expanded (input length + 2) times using plain combinators and no Recursive; evaluations = comparisons of a recursive form with the unrolling (parse and check), full equality incl. every error. distinct_nontrivial = distinct (grammar, outcomes) with an input of >= 3 tokens".into(),
-        "histsim" => "case = one grammar value (generated Boxed grammar for &[u8] / &str / Stream / IoInput, a statically typed zoo grammar, or a Cache) + a pool of 2-5 inputs + a seeded history of <= 13 operations (parse / check / *_with_state through value, &, &&, Box, Rc, Arc, boxed(), Either, stacks of those, Cache::get(); derive wrapper, clone, drop incl. the original, move; aborted parse = panic injected at the k-th user callback); evaluations = parses performed inside histories, each compared with a brand-new parser on the same input (references computed before and after the history, on pristine OS threads in 1/8 of the cases). distinct_nontrivial = distinct (subject, history, outcomes) digests where the history contains an accepted AND a rejected parse, or an aborted parse that fired followed by another parse, AND either a drop/move/derive or >= 3 parses".into(),
+        "histsim" => "case = one grammar value (generated Boxed grammar for &[u8] / &str / Stream / IoInput, the same grammar as a tree of &dyn references, a statically typed zoo grammar, or a Cache) + a pool of 2-5 inputs + a seeded history of <= 13 operations (parse / check / *_with_state through value, &, &&, Box, Rc, Arc, boxed(), Either, stacks of those, Cache::get(); derive wrapper, clone, drop incl. the original, move; aborted parse = panic injected at the k-th user callback; re-entrant parse = a second parse started inside the k-th user callback of the first); a third of the generated subjects are built from clones of every combinator node, a tenth are composed through &dyn references at every node and compared with the boxed() build; evaluations = parses performed inside histories, each compared with a brand-new parser on the same input (references computed before and after the history, on pristine OS threads in 1/8 of the cases). distinct_nontrivial = distinct (subject, history, outcomes) digests where the history contains an accepted AND a rejected parse, or an aborted parse that fired followed by another parse, AND either a drop/move/derive or >= 3 parses".into(),
         "thrsim" => "case = one shared Sync parser (generated grammar as &dyn Parser+Send+Sync over &[u8] / Stream / IoInput, zoo grammar as Arc<dyn Parser+Send+Sync>, or a static Cache) + 2-8 client tasks with 1-4 operations each (1/3 of the cases abort some operations mid-parse) + 10 (quick) / 16 (thorough) schedules: sequential, round-robin, then seeded uniform-random / sticky-random / PCT-style; a context switch can happen at every user callback and every source call; evaluations = executions (one schedule of one case), each operation compared with a brand-new parser used alone. distinct_nontrivial = distinct (case, switch sequence) with >= 2 context switches that pre-empt a client in the middle of a parse".into(),
         "lifesim" => "case = seeded (template, recursive()/declare-define form, 0-12 neutral wrappers between two recursion guards, thread stack size 64 KiB..8 MiB, nesting depth: exhaustive 0..64 then log-uniform up to 10^4 / 10^5 / 10^6, input variant well-formed | truncated | wrong token | surplus token, lifecycle history of <= 11 ops: clone, drop (incl. the original handle), boxed, parse, check, define-again); evaluations = cases. distinct_nontrivial = distinct cases with (depth >= 1000 on a stack <= 256 KiB) OR (>= 3 lifecycle ops with a drop or define-again before the final parse)".into(),
         _ => String::new(),
